@@ -161,6 +161,63 @@ func runC13(h rmHist, st *c13stats) (out []*c12result) {
 			pr = "prune-nothing"
 		}
 	}
+	var judge func(v int64, vi int, hash []byte, cdb *crashdb.DB, csName, where string)
+	judge = func(v int64, vi int, hash []byte, cdb *crashdb.DB, csName, where string) {
+		s2, err := rmOpenLazy(cdb, h.N, h.Pruning, -1, lazy)
+		if v == 1 {
+			where += "|first-commit"
+		}
+		if err != nil {
+			fail("reopen-fails|"+where+"|"+pr, "crash during commit %d at [%s]: reopening fails: %v", v, csName, err)
+			return
+		}
+		lv := s2.rs.LastCommitID().Version
+		if lv != v-1 && lv != v {
+			fail("reopen-version|"+where+"|"+pr, "crash during commit %d at [%s]: reopened at version %d", v, csName, lv)
+			return
+		}
+		for i := 0; i < h.N; i++ {
+			if got, want := s2.content(i), snaps[lv][i].iterate(nil, nil, true); !pairsEqual(got, want) {
+				fail("mixed-content|"+where+"|"+pr, "crash during commit %d at [%s]: reopened at version %d but store %s holds [%s], version %d committed [%s]", v, csName, lv, rmName(i), pairsString(got), lv, pairsString(want))
+				return
+			}
+		}
+		// re-execute the interrupted block (Tendermint's handshake replays it) and compare hashes
+		if lv == v-1 {
+			m2 := make([]kvMap, h.N)
+			for i := 0; i < h.N; i++ {
+				m2[i] = snaps[lv][i].clone()
+				rmApplyChoice(s2.kv(i), m2[i], h.Choice[vi][i])
+			}
+			cid := s2.rs.Commit()
+			if cid.Version != v || !bytes.Equal(cid.Hash, hash) {
+				fail("replay-hash|"+where+"|"+pr, "crash during commit %d at [%s]: re-executing the block yields %d/%X, uninterrupted run %d/%X", v, csName, cid.Version, cid.Hash, v, hash)
+				return
+			}
+		}
+		// one further block commits normally and reopens
+		m3 := make([]kvMap, h.N)
+		for i := 0; i < h.N; i++ {
+			m3[i] = snaps[v][i].clone()
+			rmApplyChoice(s2.kv(i), m3[i], extra[i])
+		}
+		cid := s2.rs.Commit()
+		if cid.Version != v+1 {
+			fail("next-commit|"+where+"|"+pr, "crash during commit %d at [%s]: the following commit returned version %d", v, csName, cid.Version)
+			return
+		}
+		s4, err := rmOpenLazy(crashdb.FromSnapshot(cdb.Snapshot(), nil), h.N, h.Pruning, -1, lazy)
+		if err != nil {
+			fail("next-reopen-fails|"+where+"|"+pr, "crash during commit %d at [%s]: after recovery and one more commit, reopening fails: %v", v, csName, err)
+			return
+		}
+		for i := 0; i < h.N; i++ {
+			if got, want := s4.content(i), m3[i].iterate(nil, nil, true); !pairsEqual(got, want) {
+				fail("next-content|"+where+"|"+pr, "crash during commit %d at [%s]: after recovery and one more commit store %s holds [%s], model [%s]", v, csName, rmName(i), pairsString(got), pairsString(want))
+				return
+			}
+		}
+	}
 	for vi, rec := range recs {
 		v := int64(vi + 1)
 		atomic.AddInt64(&st.commits, 1)
@@ -174,64 +231,47 @@ func runC13(h rmHist, st *c13stats) (out []*c12result) {
 			if len(cs.units) > 0 && len(cs.units) < len(rec.log) {
 				atomic.AddInt64(&st.partial, 1)
 			}
-			func() {
-				cdb := crashdb.FromSnapshot(rec.pre, cs.units)
-				s2, err := rmOpenLazy(cdb, h.N, h.Pruning, -1, lazy)
-				where := classifyCrash(cs, rec.log)
-				if v == 1 {
-					where += "|first-commit"
-				}
+			judge(v, vi, rec.hash, crashdb.FromSnapshot(rec.pre, cs.units), cs.name, classifyCrash(cs, rec.log))
+		}
+	}
+	// a second fault model: the k-th write of the Commit fails with a panic (tm-db's way of reporting
+	// an I/O error) instead of the process being killed - the process dies all the same, but deferred
+	// functions of the code being unwound still run, and what they write reaches the disk
+	if h.Reopen == 0 && h.Names == 0 {
+		for vi := range h.Choice {
+			v := int64(vi + 1)
+			rec := recs[vi]
+			for k := 1; k <= len(rec.log); k++ {
+				atomic.AddInt64(&st.crashStates, 1)
+				db2 := crashdb.FromSnapshot(rec.pre, nil)
+				s2, err := rmOpenLazy(db2, h.N, h.Pruning, -1, false)
 				if err != nil {
-					fail("reopen-fails|"+where+"|"+pr, "crash during commit %d at [%s]: reopening fails: %v", v, cs.name, err)
-					return
+					fail("reopen-fails|before-the-faulty-commit", "commit %d: the pre-commit database does not open: %v", v, err)
+					break
 				}
-				lv := s2.rs.LastCommitID().Version
-				if lv != v-1 && lv != v {
-					fail("reopen-version|"+where+"|"+pr, "crash during commit %d at [%s]: reopened at version %d", v, cs.name, lv)
-					return
+				for i, c := range h.Choice[vi] {
+					rmApplyChoice(s2.kv(i), kvMap{}, c)
 				}
-				for i := 0; i < h.N; i++ {
-					if got, want := s2.content(i), snaps[lv][i].iterate(nil, nil, true); !pairsEqual(got, want) {
-						fail("mixed-content|"+where+"|"+pr, "crash during commit %d at [%s]: reopened at version %d but store %s holds [%s], version %d committed [%s]", v, cs.name, lv, rmName(i), pairsString(got), lv, pairsString(want))
-						return
-					}
+				db2.FailAt(k)
+				died := false
+				func() {
+					defer func() {
+						if recover() != nil {
+							died = true
+						}
+					}()
+					s2.rs.Commit()
+				}()
+				db2.FailAt(0)
+				if !died {
+					continue // the commit needed fewer writes on this handle
 				}
-				// re-execute the interrupted block (Tendermint's handshake replays it) and compare hashes
-				if lv == v-1 {
-					m2 := make([]kvMap, h.N)
-					for i := 0; i < h.N; i++ {
-						m2[i] = snaps[lv][i].clone()
-						rmApplyChoice(s2.kv(i), m2[i], h.Choice[vi][i])
-					}
-					cid := s2.rs.Commit()
-					if cid.Version != v || !bytes.Equal(cid.Hash, rec.hash) {
-						fail("replay-hash|"+where+"|"+pr, "crash during commit %d at [%s]: re-executing the block yields %d/%X, uninterrupted run %d/%X", v, cs.name, cid.Version, cid.Hash, v, rec.hash)
-						return
-					}
+				cs := crashState{name: fmt.Sprintf("write %d of %d fails with a panic", k, len(rec.log)), units: rec.log[:k-1]}
+				if k-1 > 0 && k-1 < len(rec.log) {
+					atomic.AddInt64(&st.partial, 1)
 				}
-				// one further block commits normally and reopens
-				m3 := make([]kvMap, h.N)
-				for i := 0; i < h.N; i++ {
-					m3[i] = snaps[v][i].clone()
-					rmApplyChoice(s2.kv(i), m3[i], extra[i])
-				}
-				cid := s2.rs.Commit()
-				if cid.Version != v+1 {
-					fail("next-commit|"+where+"|"+pr, "crash during commit %d at [%s]: the following commit returned version %d", v, cs.name, cid.Version)
-					return
-				}
-				s4, err := rmOpenLazy(crashdb.FromSnapshot(cdb.Snapshot(), nil), h.N, h.Pruning, -1, lazy)
-				if err != nil {
-					fail("next-reopen-fails|"+where+"|"+pr, "crash during commit %d at [%s]: after recovery and one more commit, reopening fails: %v", v, cs.name, err)
-					return
-				}
-				for i := 0; i < h.N; i++ {
-					if got, want := s4.content(i), m3[i].iterate(nil, nil, true); !pairsEqual(got, want) {
-						fail("next-content|"+where+"|"+pr, "crash during commit %d at [%s]: after recovery and one more commit store %s holds [%s], model [%s]", v, cs.name, rmName(i), pairsString(got), pairsString(want))
-						return
-					}
-				}
-			}()
+				judge(v, vi, rec.hash, crashdb.FromSnapshot(db2.Snapshot(), nil), cs.name, classifyCrash(cs, rec.log))
+			}
 		}
 	}
 	if len(out) == 0 {
@@ -499,7 +539,7 @@ func C13(tier string) int {
 	run.Set("commits", st.commits)
 	run.Set("crash_states", st.crashStates)
 	run.Set("jobs", desc)
-	run.Set("rule", "for every write history, every commit, every crash state = pre-commit database + a subset of substores fully committed + at most one substore between its save batch and its prune batch (commutation closure over substore order), plus the complete commit; each crash state is reopened, checked for a single consistent version, the interrupted block re-executed and one more block committed; the whole enumeration is repeated with the store reopened before every commit (eager and lazy loading) and with store names that are proper prefixes of each other; every crash state is distinct by construction (history, commit, set of applied write units); non-trivial = a proper partial state: at least one and not all of the commit's write units reached the database")
+	run.Set("rule", "for every write history, every commit, every crash state = pre-commit database + a subset of substores fully committed + at most one substore between its save batch and its prune batch (commutation closure over substore order), plus the complete commit; each crash state is reopened, checked for a single consistent version, the interrupted block re-executed and one more block committed; a second fault model lets the k-th write of every Commit fail with a panic (later writes, e.g. from deferred functions, succeed) and judges the database left behind the same way; the whole enumeration is repeated with the store reopened before every commit (eager and lazy loading) and with store names that are proper prefixes of each other; every crash state is distinct by construction (history, commit, set of applied write units); non-trivial = a proper partial state: at least one and not all of the commit's write units reached the database")
 	run.Sample("N=2 pruning=(0,0) v1[k1=a | k2=a] v2[del k1 | -], crash during commit 2 at [done={s1}+s2:1/2]")
 	run.Assume("a Batch.Write is atomic (goleveldb journal); Write and WriteSync are not distinguished", "units of different substores touch disjoint key prefixes (checked on every log)", "MemDB stands in for the on-disk database")
 	return run.Finish()
